@@ -38,6 +38,10 @@ def quick_matrix():
     """equal 2048-bit keys for every policy/mode/token, client and server keys on different sides of every limit,
     and a few pairs outside the limits (must fail)"""
     cfgs = ["None:1:0:0", "None:1:0:1"]
+    # the None/None endpoint of a server that also enables a secured pair (client without certificate)
+    for i, p in enumerate(SHA2 + SHA1):
+        cfgs.append("None:1:0/2048:1:%s/%d" % (p, 2 + i % 2))
+    cfgs += ["None:1:0/2048:0:Basic256Sha256/3", "None:1:0/3072:1:Aes256_Sha256_RsaPss/2", "None:1:0/1024:1:Basic256/3"]
     for p in SHA2 + SHA1:
         other = 3072 if p in SHA2 else 1024
         for m in (2, 3):
@@ -55,6 +59,15 @@ def cfg_str(o):
     if o.get("extra"):
         s += ":" + o["extra"]
     return s
+
+
+def none_cell(o):
+    """None/None endpoint of a server enabling exactly one secured pair with a key inside that policy's limits"""
+    x = o.get("extra") or ""
+    if o["policy"] != "None" or "+" in x or "/" not in x:
+        return False
+    lo, hi = SPEC_KEYS.get(x.split("/")[0], (1, 0))
+    return lo <= o.get("skeybits", 0) <= hi
 
 
 def spec_supported(o):
@@ -77,7 +90,7 @@ def coq_case(o):
     for e in o.get("endpoints") or []:
         toks = ["{| tp_type := %s; tp_uri := \"%s\" |}" % ("TUser" if t["type"] == 1 else "TAnon", t["uri"]) for t in e.get("tokens") or []]
         eps.append('{| ep_pol := "%s"; ep_mode := %d; ep_level := %d; ep_toks := [%s] |}' % (e["policy"], e["mode"], e["level"], "; ".join(toks)))
-    return '({| c_pol := "%s"; c_mode := %d; c_kb := %d; c_skb := %d; c_tok := %s |}, [%s], %s, [%s])' % (
+    return '({| c_pol := "%s"; c_mode := %d; c_kb := %d; c_skb := %d; c_tok := %s; c_extra := [] |}, [%s], %s, [%s])' % (
         o["policy"], o["mode"], o["keybits"] // 8, o.get("skeybits", o["keybits"]) // 8, tok, "; ".join(pairs), "true" if o["ok"] else "false", "; ".join(eps))
 
 
@@ -124,7 +137,9 @@ def run(ctx):
     rc, out = vf.sh(cmd, timeout=1500, env=vf.GOENV)
     obs = [json.loads(l) for l in out.splitlines() if l.startswith('{"kind":"c37"')]
     if ctx.thorough() and not ctx.replay and rc == 0:
-        rc2, out2 = vf.sh([h, "-keys", KEYS, "c37"] + MIXED, timeout=600, env=vf.GOENV)
+        cells = ["None:1:0/%d:%d:%s/%d" % (kb, t, p, m) for p in SHA2 + SHA1 for m in (2, 3)
+                 for kb in (1024, 2048, 3072, 4096) if SPEC_KEYS[p][0] <= kb <= SPEC_KEYS[p][1] for t in (0, 1)]
+        rc2, out2 = vf.sh([h, "-keys", KEYS, "c37"] + MIXED + cells, timeout=900, env=vf.GOENV)
         obs += [json.loads(l) for l in out2.splitlines() if l.startswith('{"kind":"c37"')]
         rc = rc or rc2
     if rc != 0 or not obs:
@@ -136,7 +151,7 @@ def run(ctx):
     # (1) the property itself on the implementation
     fails = []
     for o in obs:
-        if o.get("extra"):
+        if o.get("extra") and not none_cell(o):
             continue  # outside the property's quantifier; compared with the model below
         sup = spec_supported(o)
         if not o["endpoints"] or not o["ep_found"]:
@@ -182,13 +197,13 @@ def run(ctx):
         "samples": [{k: o[k] for k in ("policy", "mode", "keybits", "skeybits", "token", "ok", "stage", "client_nonce", "server_nonce", "ms")} for o in (obs[:3] + obs[-2:])],
         "outcomes": {"ok": n_ok, "failed_as_predicted_or_not": len(obs) - n_ok},
         "spec_supported_configs_run": sum(1 for o in obs if not o.get("extra") and spec_supported(o) and o["tok_advertised"]),
-        "model_configs_total": 141,
+        "model_configs_total": 193,
         "key_sizes": sizes,
         "traces_validated_against_impl": len(obs),
         "model_impl_mismatches": len(mism),
     })
     if not ctx.thorough():
-        ctx.notes.append("quick tier: 2048/2048 for every policy, mode and token, client and server keys on different sides of 2048 bits (2048/3072, 3072/2048; 1024/2048 for the SHA-1 policies) and 4 pairs outside the limits; the thorough tier runs every client x server key size pair = the complete matrix of 141 configurations plus the pairs that must fail")
+        ctx.notes.append("quick tier: 10 None/None-endpoint cells (server also enables a secured pair; user-name password encrypted for the certificate of the CreateSessionResponse), 2048/2048 for every policy, mode and token, client and server keys on different sides of 2048 bits (2048/3072, 3072/2048; 1024/2048 for the SHA-1 policies) and 4 pairs outside the limits; the thorough tier runs every client x server key size pair and all 52 None/None-endpoint cells = the complete matrix of 193 configurations plus the pairs that must fail")
 
     new, seen = 0, set()
     for key0, why, o in fails:
